@@ -1,0 +1,14 @@
+//go:build verif
+
+package avc
+
+// Verification hooks (build tag "verif" only): read/write access to the
+// unexported record fields so the harness can compare every field.
+
+func VerifRecordPrivate(v *AVCDecoderConfigurationRecord) (configurationVersion, profileCompatibility uint8) {
+	return v.configurationVersion, v.profileCompatibility
+}
+
+func VerifSetCompat(v *AVCDecoderConfigurationRecord, profileCompatibility uint8) {
+	v.profileCompatibility = profileCompatibility
+}
